@@ -34,6 +34,6 @@ EventClause(r) ==
   \* nothing was assigned), and the JSON form is the form of the event as it is now: after the caller assigned a new
   \* instant / duration and changed data in place
   ELSE IF r.out_set # Normalize(r.inp2) THEN "assigned-instant-not-utc-millisecond-floor"
-  ELSE IF r.out4 # Normalize(r.inp2) \/ r.dout4 # r.dur_now \/ r.data4 # r.data_now \/ r.id4 # r.id THEN "json-form-is-stale-after-the-event-changed"
+  ELSE IF r.out4 # Normalize(r.inp2) \/ r.dout4 # r.dur_now \/ r.data4 # r.data_now \/ r.id4 # r.id_now THEN "json-form-is-stale-after-the-event-changed"
   ELSE "none"
 =============================================================================
